@@ -28,14 +28,15 @@ theorem triage_eq_bytes {ρ : Type} (cfg : Cfg) (u : List Nat → Res ρ) (v : N
   simp only [triage, triageB, Pdu.trimFront_bytes _ _ hp]
 
 /-- One SDO-info iteration written on the reply bytes alone. -/
-def infoStepB (mode : Mode) (b : List Nat) (consumed : Bool) (buf : List Nat) : Res InfoStep :=
+def infoStepB (b : List Nat) (consumed : Bool) (buf : List Nat) : Res InfoStep :=
   (unpackListResponse b).bind fun h =>
     if h.opCode == opListResponse then
-      (subUsize mode h.mailbox.length COE_HEADER_AND_LIST_TYPE_SIZE).bind fun length =>
-        let rest := if !consumed then (b.drop LEN_ListResponse).drop 2 else b.drop LEN_ListResponse
-        if length > rest.length then .panic "range end index out of range for slice"
-        else if buf.length + (rest.take length).length > INFO_BUF_CAP then .err .internal
-        else .ok (.frag (buf ++ rest.take length) h.incomplete)
+      let rest := if !consumed then (b.drop LEN_ListResponse).drop 2 else b.drop LEN_ListResponse
+      if h.mailbox.length < COE_HEADER_AND_LIST_TYPE_SIZE then .err .internal
+      else if h.mailbox.length - COE_HEADER_AND_LIST_TYPE_SIZE > rest.length then .err .internal
+      else if buf.length + (rest.take (h.mailbox.length - COE_HEADER_AND_LIST_TYPE_SIZE)).length > INFO_BUF_CAP then
+        .err .internal
+      else .ok (.frag (buf ++ rest.take (h.mailbox.length - COE_HEADER_AND_LIST_TYPE_SIZE)) h.incomplete)
     else .ok .skip
 
 theorem Pdu.trimFront_ok (p : Pdu) (ct : Nat) (hp : p.start + p.len ≤ p.frame.length) :
@@ -59,7 +60,7 @@ theorem infoTrim_ok (p : Pdu) (consumed : Bool) (hp : p.start + p.len ≤ p.fram
   · exact Pdu.trimFront_ok p _ hp
 
 theorem infoStep_eq_bytes (cfg : Cfg) (p : Pdu) (consumed : Bool) (buf : List Nat)
-    (hp : p.start + p.len ≤ p.frame.length) : infoStep cfg p consumed buf = infoStepB cfg.mode p.bytes consumed buf := by
+    (hp : p.start + p.len ≤ p.frame.length) : infoStep cfg p consumed buf = infoStepB p.bytes consumed buf := by
   have hlen : (infoTrim p consumed).len = (infoTrim p consumed).bytes.length :=
     (Pdu.bytes_length _ (infoTrim_ok p consumed hp)).symm
   simp only [infoStep, infoStepB, hlen, infoTrim_bytes p consumed hp]
@@ -78,7 +79,6 @@ theorem infoStep_around (cfg : Cfg) (pre post : List Nat) (img : List Nat) (cons
     infoStep (cfg.around pre post) (mkPdu (cfg.around pre post) img) consumed buf =
       infoStep cfg (mkPdu cfg img) consumed buf := by
   rw [infoStep_eq_bytes _ _ _ _ (mkPdu_ok _ _), infoStep_eq_bytes _ _ _ _ (mkPdu_ok _ _), mkPdu_bytes, mkPdu_bytes]
-  rfl
 
 theorem mwr_around {σ ρ : Type} (w : World σ) (cfg : Cfg) (pre post : List Nat) (req : List Nat)
     (u : List Nat → Res ρ) (v : Nat → Nat → Bool) (s : St σ) :
